@@ -5,7 +5,7 @@ import re
 import dm
 
 ID = "C12"
-PROP_FILES = ["Properties/C12.v"]
+PROP_FILES = ["Properties/C12.v", "Properties/C12_literals.v"]
 THEOREMS = ["C12_py_roundtrip", "C12_brace_is_I", "C12_name_whitespace_invariant", "C12_refuted_unary_pow",
             "C12_refuted_pow_assoc"]
 ASSUMPTIONS = ["Python's own parser (ast.parse / eval) is the specification of Python expressions",
@@ -127,7 +127,9 @@ def _tree(rng, depth, numeric=True):
     if rng.random() < 0.6:
         kws.append(ast.keyword("which", ast.Constant(rng.choice(["first", "second"]))))
     if rng.random() < 0.5:
-        kws.append(ast.keyword("other", rng.choice([ast.Constant(None), _tree(rng, 1)])))
+        # `shadowed` is bound to None in the scope that calls design_matrices and to a number further out
+        # (extra_namespace): the call receives None, as Python would pass it
+        kws.append(ast.keyword("other", rng.choice([ast.Constant(None), _tree(rng, 1), ast.Name("shadowed", ast.Load())])))
     if rng.random() < 0.4:
         kws.append(ast.keyword("flag", ast.Constant(rng.choice([True, False]))))
     return ast.Call(ast.Name("pick", ast.Load()), [_tree(rng, depth - 1)], kws)
@@ -178,7 +180,10 @@ def gen(rng, tier):
             cases.append({"expr": a, "src": a, "wrapper": "%s" + joiner + b, "frame": rng.choice(fr_cache), "kind": "pair",
                           "pair": [a, b, joiner]})
     for e in ["-x ** 2", "2 ** x ** 2", "x < z < w", "(x + z) * 2", "x + z * 2", "x - (z - w)", "x / (z * 2)", "x ** -1",
-              "-(x + 1)", "add3(x, c=z)", "pick(x, which='second', other=z)", "1.5 * x", "x == z", "(x + 1) ** 2", "-x * z"]:
+              "-(x + 1)", "add3(x, c=z)", "pick(x, which='second', other=z)", "1.5 * x", "x == z", "(x + 1) ** 2", "-x * z",
+              "pick(x, which='second', other=shadowed)", "pick(z, other=shadowed, which='second')",
+              "add3(x, c=pick(z, which='second', other=shadowed))", "pick(x + z, which='second', other=shadowed) + w",
+              "lowd(x, 9007199254740993)", "lowd(z, 1700000000123456789, k=9007199254740993)"]:
         cases.append({"expr": e, "src": e, "wrapper": "I(%s)", "frame": fr_cache[0], "kind": "fixed"})
     return cases
 
@@ -194,17 +199,18 @@ def _formula(c, src=None):
 def _extra():
     ns = {}
     exec(USER, ns)
-    return {k: v for k, v in ns.items() if k in ("add3", "pick", "twice", "tcode", "slen", "wsum", "lib", "lowd")}
+    return {k: v for k, v in ns.items() if k in ("add3", "pick", "twice", "tcode", "slen", "wsum", "lib", "lowd")} | {"shadowed": 3.0}
 
 
 def model_cmd(c):
     import core
     return core.sshow(["c12", _formula(c), dm.frame_sexp(c["frame"]), "drop",
-                       [["add3", ["opaque"]], ["pick", ["opaque"]], ["twice", ["opaque"]], ["tcode", ["opaque"]], ["slen", ["opaque"]], ["wsum", ["opaque"]], ["lib", ["opaque"]], ["lowd", ["opaque"]]]])
+                       [["add3", ["opaque"]], ["pick", ["opaque"]], ["twice", ["opaque"]], ["tcode", ["opaque"]], ["slen", ["opaque"]], ["wsum", ["opaque"]], ["lib", ["opaque"]], ["lowd", ["opaque"]], ["shadowed", ["opaque"]]]])
 
 
 def impl_obs(c):
     from formulae import design_matrices, model_description
+    shadowed = None   # noqa: F841  (read by the formula through the caller's frame: the innermost binding wins)
     f = _formula(c)
     try:
         m = model_description(f)
@@ -312,8 +318,10 @@ def oracle(c):
         return _pair_oracle(c)
     df = dm.to_pandas(c["frame"])
     ns = _extra()
+    shadowed = None   # noqa: F841  (the binding the formula must see: this frame calls design_matrices)
     env = {k: df[k] for k in COLS}
     env.update(ns)
+    env["shadowed"] = None
     env["I"] = lambda v: v
     f = _formula(c)
     tree = ast.parse(c["expr"], mode="eval")
